@@ -8,9 +8,13 @@ for d in seeded/*/; do
   n=$(basename $d); p=${n%%-*}
   [ -f $d/patch.diff ] || continue
   if [ -n "$(git -C /repo status --porcelain)" ]; then echo "/repo not clean"; exit 2; fi
-  git -C /repo apply /verif/$d/patch.diff || { echo "| $n | $p | patch does not apply | |" >> $out; continue; }
-  log=$(./bin/vcheck $p --tier quick --no-evidence 2>&1); rc=$?
-  git -C /repo checkout -- .
+  git -C /repo apply /verif/$d/patch.diff 2>/dev/null || git -C /repo apply -C1 /verif/$d/patch.diff 2>/dev/null || git -C /repo apply -3 /verif/$d/patch.diff 2>/dev/null || {
+    git -C /repo reset -q; git -C /repo checkout -- .; git -C /repo clean -fdq
+    echo "| $n | $p | patch does not apply | |" >> $out; echo "$n -> patch does not apply"; continue; }
+  # (stops dispatching scenarios after the first violation: the signatures listed are the first ones reported)
+  log=$(VERIF_STOP_AT_FIRST=1 ./bin/vcheck $p --tier quick --no-evidence 2>&1); rc=$?
+  # undo, including files the change added
+  git -C /repo reset -q; git -C /repo checkout -- .; git -C /repo clean -fdq
   sigs=$(echo "$log" | grep -E '^\s+signature:' | sed 's/^\s*signature: //' | sort -u | tr '\n' ';' | cut -c1-300)
   echo "| $n | $p | $rc | $sigs |" >> $out
   echo "$n -> exit $rc: $sigs"
